@@ -41,7 +41,7 @@ func ngapMessages() []msgRef {
 			reflect.TypeOf(ngapType.UnsuccessfulOutcomeValue{}),
 		} {
 			for i := 1; i < vt.NumField(); i++ {
-				p, _ := per.ParseTag(vt.Field(i).Tag.Get("aper"))
+				p, _ := per.ParseTag(per.FieldTag(vt, i))
 				var proc int64 = -1
 				if p.RefFieldValue != nil {
 					proc = *p.RefFieldValue
@@ -99,7 +99,7 @@ func genPDU(r *rand.Rand, m msgRef, budget int, big bool, noExt ...bool) (ngapTy
 		v.Field(1).Field(0).SetUint(uint64(r.Intn(3)))
 		val := v.Field(2)
 		val.Field(0).SetInt(int64(m.Alt))
-		ap, _ := per.ParseTag(m.ValType.Field(m.Alt).Tag.Get("aper"))
+		ap, _ := per.ParseTag(per.FieldTag(m.ValType, m.Alt))
 		ap.RefFieldValue = nil
 		val.Field(m.Alt).Set(g.Value(m.ValType.Field(m.Alt).Type, ap))
 		return v
@@ -261,13 +261,13 @@ func localize(v reflect.Value, tag string, path string, depth int) string {
 		if t.NumField() > 0 && t.Field(0).Name == "Present" {
 			present := int(v.Field(0).Int())
 			if present >= 1 && present < t.NumField() && !p.OpenType {
-				if s := localize(v.Field(present), dropRef(t.Field(present).Tag.Get("aper")), path+"."+t.Field(present).Name, depth+1); s != "" {
+				if s := localize(v.Field(present), dropRef(per.FieldTag(t, present)), path+"."+t.Field(present).Name, depth+1); s != "" {
 					return s
 				}
 			}
 		} else {
 			for i := 0; i < t.NumField(); i++ {
-				ftag := t.Field(i).Tag.Get("aper")
+				ftag := per.FieldTag(t, i)
 				fp, _ := per.ParseTag(ftag)
 				f := v.Field(i)
 				if fp.OpenType {
@@ -277,7 +277,7 @@ func localize(v reflect.Value, tag string, path string, depth int) string {
 					}
 					present := int(val.Field(0).Int())
 					if present >= 1 && present < val.NumField() {
-						if s := localize(val.Field(present), dropRef(val.Type().Field(present).Tag.Get("aper")), path+"."+t.Field(i).Name+"."+val.Type().Field(present).Name, depth+1); s != "" {
+						if s := localize(val.Field(present), dropRef(per.FieldTag(val.Type(), present)), path+"."+t.Field(i).Name+"."+val.Type().Field(present).Name, depth+1); s != "" {
 							return s
 						}
 					}
